@@ -253,6 +253,19 @@ pub fn check_program(model: &mut Model, report: &mut Report, cfg: &Cfg, code: &s
         }
     }
 
+    // ---- which programs does the whole-rule theorem `inject_refines_whole` speak about?
+    if cfg.rule_name == "inject_global_value" {
+        let w = model.ask(&format!("c17.whole {} {} {}", hex(cfg.rule_name.as_bytes()), cfg.props, j.sexp0));
+        let bucket = match w.as_str() {
+            "(true true true)" => "inside",
+            x if x.starts_with("(false") => "outside: value is not a literal (table)",
+            x if x.starts_with("(true false") => "outside: program declares or assigns the name",
+            x if x.starts_with("(true true false") => "outside: an unshadowed _G.NAME / _G['NAME'] is rewritten",
+            _ => panic!("c17.whole protocol error: {}", w),
+        };
+        report.hist("inject_refines_whole_region", bucket);
+    }
+
     // ---- oracle (between environments)
     let mut oracle_failed = false;
     if cfg.oracle {
@@ -343,7 +356,19 @@ fn replay_known(model: &mut Model, report: &mut Report) {
             None => continue,
         };
         let rules = vec![exec::rule_from_json(&cfg.rule_json).expect("known finding rule")];
+        let fixed = entry["status"] == "fixed";
         if let Some((o0, o1, _)) = oracle_fails_in_h(model, &cfg, &rules, &code, false) {
+            if fixed {
+                // a fixed finding excuses nothing: its witness failing again is a violation
+                report.violation(Violation {
+                    kind: "oracle".into(),
+                    check: format!("{}:fixed-finding-fails-again", id),
+                    what: format!("the witness of the FIXED finding {} fails again: input in the modified environment {} vs output {}", id, o0, o1),
+                    input: json!({"rule": rule_json, "code": code}),
+                    failing_input_found: true,
+                });
+                continue;
+            }
             let flags = match exec::parse(&code) {
                 Ok(b) => hyp_flags(model, &cfg, &astsexp::block_to_sexp(&b)),
                 Err(_) => "?".to_owned(),
